@@ -78,7 +78,9 @@ class TriggerContext:
                 new_callback = result.process(self)
                 if new_callback is not None:
                     self.callbacks.append(new_callback)
-            except Exception:
+            except BaseException:
+                # (a delivery refused during shutdown raises IllegalStateException, which is not an Exception: the
+                # remaining results - a log message, a span to open - do not depend on it)
                 deep.logging.exception("failed to process result {}", result)
 
     @property
